@@ -422,6 +422,7 @@ fn poison(t: &mut Tape, prog: &mut Prog) -> String {
         }
         10 => {
             m.ext_vals.push(ExtVal {
+                sty: 0,
                 vis: true,
                 name: id,
                 ty: if t.chance(1, 2) { Ty::Unk(bu) } else { Ty::n("void") },
